@@ -80,7 +80,8 @@ def main():
                 t0 = time.time()
                 rcc, outc = sh([os.path.join(ROOT, "check"), p, "--tier", "quick"], cwd=ROOT, timeout=2400)
                 lines = [l for l in outc.split("\n") if l.startswith(("VIOLATION", "BROKEN", "OK ", "KNOWN-FINDING"))]
-                res["checks"][p] = {"rc": rcc, "wall": round(time.time() - t0, 1), "lines": [l[:400] for l in lines[:12]]}
+                res["checks"][p] = {"rc": rcc, "wall": round(time.time() - t0, 1), "violation": any(l.startswith("VIOLATION") for l in lines),
+                                    "lines": [l[:400] for l in lines if not l.startswith("KNOWN-FINDING")][:12] + [l[:400] for l in lines if l.startswith("VIOLATION")][:1]}
                 # copy the replay file next to the seed for reference
                 m = re.search(r"replay=(\S+)", outc)
                 if m and os.path.exists(m.group(1)):
@@ -93,7 +94,7 @@ def main():
     valid = res["apply"]["rc"] == 0 and res.get("build", {}).get("rc") == 0 and res.get("existing_tests", {}).get("rc") == 0 \
         and res["demo_unchanged"]["rc"] == 0 and res.get("demo_changed", {}).get("rc", 0) != 0
     res["valid_seed"] = valid
-    res["detected"] = any(c["rc"] == 1 and any(l.startswith("VIOLATION") for l in c["lines"]) for c in res.get("checks", {}).values())
+    res["detected"] = any(c["rc"] == 1 and c.get("violation") for c in res.get("checks", {}).values())
     dst = os.path.join(ROOT, "seeded", name)
     shutil.rmtree(dst, ignore_errors=True)
     os.makedirs(dst)
